@@ -1616,6 +1616,23 @@ bool XMLScanner::getURIText(  const   unsigned int    uriId
         return false;
 }
 
+//  Counts one more entity expansion against the limit of the security
+//  manager, if there is one, and issues the fatal error once the limit has
+//  been exceeded. The scanners do this themselves for general entities; this
+//  is for the parameter entity references expanded by the DTD scanner.
+void XMLScanner::countEntityExpansion()
+{
+    if (fSecurityManager != 0 && ++fEntityExpansionCount > fEntityExpansionLimit) {
+        XMLCh expLimStr[32];
+        XMLString::sizeToText(fEntityExpansionLimit, expLimStr, 31, 10, fMemoryManager);
+        emitError
+        (
+            XMLErrs::EntityExpansionLimitExceeded
+            , expLimStr
+        );
+    }
+}
+
 bool XMLScanner::checkXMLDecl(bool startWithAngle) {
 
     // [23] XMLDecl     ::= '<?xml' VersionInfo EncodingDecl? SDDecl? S? '?>'
